@@ -123,6 +123,13 @@ def run_case(asm, acc, case):
             ai = next(i for i, it in enumerate(probe) if it['k'] == 'align')
             nb = (case['shift'] - pex.lay.chunks[ai][0]) % case['N']
         items = sweep_program(random.Random(seedtxt), case['N'], nb)
+    elif case['idx'] % 50 == 49:
+        rng = random.Random('c09-tiny-%d-%d' % (case['seed'], case['idx']))
+        # degenerate programs: nothing, only labels / constants / comments, a lone align, a lone empty-ish datum
+        pool = [[], [{'k': 'label', 'name': 'ONLY'}], [{'k': 'const', 'name': 'KONLY', 'value': 5, 'text': '5'}], [{'k': 'align', 'n': rng.choice([1, 4, 7, 64])}],
+                [{'k': 'label', 'name': 'A0'}, {'k': 'align', 'n': 8}, {'k': 'label', 'name': 'A1'}], [{'k': 'raw', 'text': '# just a comment'}],
+                [{'k': 'seq', 'd': 'bytes', 'vals': [7]}, {'k': 'align', 'n': rng.choice([2, 3, 5, 16])}], [{'k': 'gap', 'n': 1}]]
+        items = rng.choice(pool)
     else:
         rng = random.Random('c09-rand-%d-%d' % (case['seed'], case['idx']))
         items = randprog.gen(rng, RAND_CFGS[case['idx'] % len(RAND_CFGS)])
